@@ -7,14 +7,15 @@ for conf in sorted(pathlib.Path('/tmp').glob('confirm-c*.json')):
     prop, n = name.split('-')
     if n.endswith('p'):
         continue  # ported ones are imported by hand
-    round2 = prop.endswith('r2')
+    rnd = int(prop[4:]) if len(prop) > 3 else 1
+    round2 = rnd > 1
     prop = prop[:3]
-    src = pathlib.Path(f'/tmp/out2-{prop}/change{n}' if round2 else f'/tmp/out-{prop}/change{n}')
+    src = pathlib.Path(f'/tmp/out{rnd}-{prop}/change{n}' if round2 else f'/tmp/out-{prop}/change{n}')
     diff = set(c.get('suite_diff') or []) - FLAKY_EXTRA
     if not round2 and (dst := pathlib.Path(f'/verif/seeded/{prop}-{n}')).exists():
         continue  # round 1 is already imported (some were ported by hand since)
     ok = c.get('applies') and c.get('demo_clean_exit') == 0 and c.get('demo_patched_exit', 0) != 0 and not diff
-    dst = pathlib.Path(f'/verif/seeded/{prop}{"r2" if round2 else ""}-{n}')
+    dst = pathlib.Path(f'/verif/seeded/{prop}{f"r{rnd}" if round2 else ""}-{n}')
     if not ok:
         print(name, 'not imported', c.get('apply_err', '')[:80], diff)
         continue
